@@ -106,6 +106,12 @@ def _loop_ordinal(fn_node, loop_node):
 
 # ------------------------------------------------------------------------------------------
 
+class NativeOutcome(object):
+  """What a native runner may return: the real result plus the post-state names the clauses read
+  (e.g. `self` rebuilt from the real object after the call)."""
+  def __init__(self, result, env): self.result, self.env = result, dict(env)
+
+
 class ObResult(object):
   def __init__(self, ob, res, replay=None):
     self.ob, self.res, self.replay = ob, res, replay
@@ -124,6 +130,21 @@ class ContractRun(object):
     self.vacuous = []
 
 
+def _snapshot(v, memo=None):
+  """Entry-state copy for old(): modelled objects and concrete containers are mutable."""
+  memo = {} if memo is None else memo
+  if id(v) in memo: return memo[id(v)]
+  if isinstance(v, ObjVal):
+    c = ObjVal(v.cls_name, {}, v.real_cls)
+    memo[id(v)] = c
+    c.fields = {k: _snapshot(x, memo) for k, x in v.fields.items()}
+    return c
+  if isinstance(v, list): return [_snapshot(x, memo) for x in v]
+  if isinstance(v, dict): return {k: _snapshot(x, memo) for k, x in v.items()}
+  if isinstance(v, tuple) and not hasattr(v, "_fields"): return tuple(_snapshot(x, memo) for x in v)
+  return v
+
+
 def _function_frame(ip, contract, fv, argvals):
   fr = Frame(fv, ip)
   a = fv.node.args
@@ -132,6 +153,10 @@ def _function_frame(ip, contract, fv, argvals):
   for special in (a.vararg, a.kwarg):
     if special is not None and special.arg in kw:
       direct[special.arg] = kw.pop(special.arg)
+  formal = {p.arg for p in a.posonlyargs + a.args + a.kwonlyargs}
+  for k in list(kw):
+    if k not in formal:
+      direct[k] = kw.pop(k)         # ghost parameter: visible to the spec only
   fr.bind_args(a, [], kw, ip)
   fr.env.update(direct)
   for k, v in contract.stubs.items():
@@ -166,7 +191,7 @@ def run_paths(contract, registry=None, concrete_args=None, max_paths=4000, timeo
       args = {}
       for name, shape in contract.params.items():
         args[name] = ctx.fresh(shape, name) if isinstance(shape, Shape) else shape
-      ip.old_env = dict(args)
+      ip.old_env = {k: _snapshot(v) for k, v in args.items()}
       for k, v in contract.stubs.items():
         ip.old_env.setdefault(k, v)
       for name, clause in contract.axioms.items():
@@ -265,6 +290,28 @@ def _default_universe(args):
   return sorted(seen, key=repr)
 
 
+def _walk_values(env):
+  stack = list(env.values())
+  seen = set()
+  while stack:
+    v = stack.pop()
+    if id(v) in seen: continue
+    seen.add(id(v))
+    yield v
+    if isinstance(v, ObjVal): stack.extend(v.fields.values())
+    elif isinstance(v, (list, tuple)): stack.extend(v)
+    elif isinstance(v, dict): stack.extend(v.values())
+    elif isinstance(v, SOpt): stack.append(v.val)
+
+
+def _length_terms(env):
+  return [v.length for v in _walk_values(env or {}) if isinstance(v, SSeq)]
+
+
+def _int_terms(env):
+  return [v.t for v in _walk_values(env or {}) if isinstance(v, SInt)]
+
+
 def eval_concrete(contract, clause, env, old_env):
   """Evaluates a clause natively (compiled to plain Python, see speccompile)."""
   from .speccompile import SpecEnv
@@ -296,8 +343,11 @@ def replay(contract, ob, model):
   except Exception as e:
     rec.update(replayed=False, why="could not evaluate requires natively: %r" % (e,))
     return rec
+  env_updates = {}
   try:
     result = contract.native(args)
+    if isinstance(result, NativeOutcome):
+      result, env_updates = result.result, result.env
     raised = None
   except Exception as e:          # the real code raised
     result, raised = None, e
@@ -322,6 +372,8 @@ def replay(contract, ob, model):
       rec.update(replayed=False, why="real code did not raise on the model's arguments")
       return rec
     env = mkenv(args); env["result"] = result
+    env.update(env_updates)
+    for alias in getattr(contract, "result_aliases", ()): env[alias] = result
     failed = []
     for cname, clause in contract.ensures.items():
       if not eval_concrete(contract, clause, dict(env), dict(env0)):
@@ -364,6 +416,10 @@ def verify_contract(contract, registry=None, timeout_ms=10000):
     seen.add(k)
     res = solve.discharge(ob, timeout_ms)
     rp = None
+    if res.status == "sat":
+      small = solve.small_model(ob, _length_terms(ob.witness_env), _int_terms(ob.witness_env))
+      if small is not None:
+        res.model = small
     if res.status == "sat" and res.model is not None:
       rp = replay(contract, ob, res.model)
     elif res.status == "sat":
